@@ -53,6 +53,11 @@ def run(chk):
         for sc in ("complex128", "complex64"):
             items.append({"case": {"cell": cl, "elem": "P1", "term": "cerf", "rule": "custom", "geom": "affine", "xdeg": 1},
                           "seed": chk.seed * 100003 + 900 + k, "scalar": sc, "ninputs": 1, "label": f"cerf/{cl}|{sc}|complex"})
+    # expressions with complex-part operators, for both complex types
+    for k, cl in enumerate(("interval", "triangle") if quick else ("interval", "triangle", "quadrilateral", "tetrahedron")):
+        for sc in ("complex64", "complex128"):
+            items.append({"case": {"cell": cl, "elem": "P1", "term": "cconj", "pts": "cell", "geom": "affine"}, "builder": "harness.corpus.realise_expr",
+                          "seed": chk.seed * 100003 + 950 + k, "scalar": sc, "ninputs": 1, "label": f"expr/{cl}/cconj|{sc}|complex"})
     recs = s5.run_items(chk, items, nworkers=4 if quick else 6)
     for r in recs:
         if r["status"] == "skipped" and r.get("history_error"):
